@@ -78,6 +78,7 @@ def finalize(agg, tier):
         need("operands_unchanged:" + cv)
         need("pairs_sharing_a_coordinate:" + cv)
     for cv in NIST:
+        need("carry_chain_points:" + cv)
         need("path:%s:generator" % cv)
         need("path:%s:generic" % cv)
         need("genpath_pairs:" + cv)
@@ -777,6 +778,12 @@ class PointFamily(object):
             P0 = self.ec.w_lift_x(c, 0, rng.getrandbits(1))
             if P0 is not None:
                 ents.append(self.ent_ctor(P0, "lifted"))
+            # a point with a coordinate whose Montgomery-form square has all-ones words where the reduction carries into
+            from .aux_c05_con import carry_chain_on_curve
+            cc = carry_chain_on_curve(c, rng, cubic=c.bits <= 384)
+            if cc is not None and self.on_curve(cc[1]):
+                ents.append(self.ent_ctor(cc[1], "lifted") if rng.random() < 0.5 else self.ent_sum(cc[1], "lifted"))
+                self.ctx.count("carry_chain_points:%s" % self.name)
         for t in self.torsion:
             ents.append(self.ent_ctor(t, "torsion"))
             ents.append(self.ent_sum(t, "torsion"))
